@@ -212,6 +212,7 @@ func registerEnvIntrinsics(I map[string]Intrinsic) {
 	}
 	const gw = "github.com/gorilla/websocket"
 	redirect("(*"+gw+".Conn).ReadMessage", "ConnReadMessage")
+	redirect("(*"+gw+".Conn).NextReader", "ConnNextReader")
 	redirect("(*"+gw+".Conn).WriteMessage", "ConnWriteMessage")
 	redirect("(*"+gw+".Conn).SetReadLimit", "ConnSetReadLimit")
 	redirect("(*"+gw+".Conn).Close", "ConnClose")
